@@ -4,6 +4,7 @@ import (
 	"context"
 	"errors"
 	"fmt"
+	"io"
 	"net/http"
 	"net/url"
 	"sort"
@@ -52,6 +53,7 @@ type ReqRec struct {
 	PanicAt  []int `json:"-"`
 	PanicSeq int64 `json:"-"`
 	Done     bool  `json:"-"` // ServeHTTP has returned (or panicked)
+	PanicVal any   `json:"-"` // value of a panic caused by an injected writer fault
 	// route cache bookkeeping
 	CacheKeys string `json:"-"` // keys from most to least recent when the request finished
 	Hits      int64  `json:"-"` // cache hits during the request
@@ -170,7 +172,14 @@ func BuildWorld(sc *Scenario, bo BuildOpt) (w *World) {
 	var opts []func(*rux.Router)
 	o := sc.Options
 	if o.Caching && !bo.NoCache {
-		opts = append(opts, rux.CachingWithNum(uint16(o.Capacity)))
+		switch o.CacheOpt {
+		case "enable-max":
+			opts = append(opts, rux.EnableCaching, rux.MaxNumCaches(uint16(o.Capacity)))
+		case "max-enable":
+			opts = append(opts, rux.MaxNumCaches(uint16(o.Capacity)), rux.EnableCaching)
+		default:
+			opts = append(opts, rux.CachingWithNum(uint16(o.Capacity)))
+		}
 	}
 	if o.StrictSlash {
 		opts = append(opts, rux.StrictLastSlash)
@@ -399,7 +408,22 @@ func (w *World) act(rs *reqState, id string, c *rux.Context, a Action) {
 		add("w", fmt.Sprintf("%d,%v,len=%d", n, err, c.Length()))
 	case "wstr":
 		add("do", "wstr:"+a.S)
-		c.WriteString(a.S)
+		// WriteString panics by contract when the writer fails: an injected writer fault
+		// becomes a handler crash at exactly that point (recorded only if it really happens)
+		func() {
+			defer func() {
+				if r := recover(); r != nil {
+					rec.PanicAt = append(rec.PanicAt, len(rec.Trace))
+					if rec.PanicSeq == 0 {
+						rec.PanicSeq = shNextSeq()
+					}
+					rec.PanicVal = r
+					add("panic", "werr")
+					panic(r)
+				}
+			}()
+			c.WriteString(a.S)
+		}()
 	case "status":
 		add("do", "status:"+strconv.Itoa(a.N))
 		c.SetStatus(a.N)
@@ -422,6 +446,9 @@ func (w *World) act(rs *reqState, id string, c *rux.Context, a Action) {
 	case "text":
 		add("do", "text:"+strconv.Itoa(a.N)+":"+a.S)
 		c.Text(a.N, a.S)
+	case "stream": // io.Copy from a reader without WriteTo, as Context.Stream does for files and pipes
+		add("do", "stream:"+strconv.Itoa(a.N)+":"+a.S)
+		c.Stream(a.N, "text/plain", io.LimitReader(strings.NewReader(a.S), int64(len(a.S))))
 	case "nocontent":
 		add("do", "status:204")
 		c.NoContent()
@@ -471,6 +498,24 @@ func (w *World) act(rs *reqState, id string, c *rux.Context, a Action) {
 		c.Params = rux.Params{a.S: a.V}
 	case "swapwriter":
 		c.Resp = passWriter{c.Resp}
+	case "nextrecover":
+		func() {
+			defer func() {
+				if r := recover(); r != nil {
+					add("recovered", panicString(r))
+				}
+			}()
+			taskYield(siteHNext)
+			c.Next()
+			taskYield(siteHNext)
+		}()
+	case "wrapnext": // a middleware that wraps the writer for the rest of the chain and restores it afterwards (no defer)
+		old := c.Resp
+		c.Resp = passWriter{old}
+		taskYield(siteHNext)
+		c.Next()
+		taskYield(siteHNext)
+		c.Resp = old
 	case "swapreq":
 		c.Req = c.Req.WithContext(context.WithValue(c.Req.Context(), swapKey{}, id))
 	case "yield":
